@@ -126,7 +126,13 @@ def diff_body(ctx, case):
     else:
         d2 = d1 if m == 1.0 else m * d1
         got = np.asarray(o.twoStepFresnel(u, wvl, d1, d2, z))
-        Dz1 = z / 2.0 if m == 1.0 else z / (1 - d2 / d1)
+        # same input grid, same output grid: the two propagators must return the same field, for any field (the two-step
+        # scheme with steps in opposite directions IS the angular-spectrum operator; unit magnification is its limit)
+        asp = np.asarray(o.angularSpectrum(u, wvl, d1, d2, z))
+        ctx.close(got, asp, 1e-9, "twoStepFresnel(m=%r) == angularSpectrum on the same grids" % m, scale=nrm(asp) / N + 1e-300, name="two-step vs angular spectrum")
+        if m == 1.0:
+            return
+        Dz1 = z / (1 - d2 / d1)
         Dz2 = z - Dz1
         d1a = wvl * Dz1 / (N * d1)                       # physical (signed) spacing of the intermediate plane
         xa = fresnel.grid(N, d1a)
@@ -159,8 +165,14 @@ def slack(target, N, a, t, m):
             return None
     elif target == "one":
         s.append(at * math.pi * a * a / 2.0 - 4.5 * a * math.sqrt(1 + t * t))
+    elif target == "two" and m == 1.0:
+        # unit magnification: input and output windows and the sampled spectrum must hold the beam, nothing else - the
+        # intermediate plane of the two-step scheme is internal to the code, not a property of the beam or of the two grids
+        s.append(N / 2.0 - 4.5 * a * math.sqrt(1 + t * t))
+        if 4.5 / (math.pi * a) > 0.5:
+            return None
     elif target == "two":
-        t1 = t / 2.0 if m == 1.0 else t / (1 - m)
+        t1 = t / (1 - m)
         s.append(abs(t1) * math.pi * a * a / 2.0 - 4.5 * a * math.sqrt(1 + t1 * t1))
         s.append(m * N / 2.0 - 4.5 * a * math.sqrt(1 + t * t))
     r = min(s)
